@@ -9,14 +9,24 @@ Scenario steps:
                call again: the step is skipped (record `b`).
 * `done i e` : the pull in flight for image `i` returns (package, or error if `e`); record `d`, or
                `n` if no pull for `i` is in flight (disabled step).
+* `park i e k mid` : like `done i e`, but the broadcast is observed from the inside: the harness
+               parks the real `handleResponse` after its first `k` sends (record `P`: the callers
+               answered so far), lets the requests `mid` arrive while it is parked (one record each:
+               `w` = issued, `b` = not issued because that caller is still blocked in `Pull` or
+               because a request for that image is already pending), lets the broadcast finish and
+               waits until the requests issued meanwhile have gone through (record `U`).  On the
+               model of the Go code (`ReqMgrFine`) these are separate steps; the specification
+               only says what must have happened by `U` (`collapse`).
 * at the end every pull still in flight is completed with a package, in image order (records `D`),
   and the number of callers still waiting is reported.
 -/
 import Pko.Model.ReqMgr
 import Pko.Model.ReqMgrSpec
+import Pko.Model.ReqMgrFine
 namespace Pko.Model.ReqMgrTrace
 open Pko.Model.ReqMgr
 open Pko.Model.ReqMgrSpec (Spec)
+open Pko.Model.ReqMgrFine (FState fstep sendN pulling)
 
 /-- number of images the harness reports on -/
 def nImg : Nat := 2
@@ -24,6 +34,7 @@ def nImg : Nat := 2
 inductive SStep where
   | req (c : Caller) (i : Image)
   | done (i : Image) (err : Bool)
+  | park (i : Image) (err : Bool) (k : Nat) (mid : List (Caller × Image))
   | bad
   deriving DecidableEq, Repr
 
@@ -34,26 +45,126 @@ inductive Rec where
   | fin (waiting : Nat)
   deriving DecidableEq, Repr
 
-/-- A machine a scenario can be run on. -/
-structure Machine (σ : Type) where
-  init : σ
-  step : σ → Op → σ
-  obs : Nat → σ → Op → Obs
-  view : σ → Spec
+/-- What one scenario step prints: one record, or the records of a parked broadcast. -/
+inductive Grp where
+  | one (r : Rec)
+  /-- observation at the parking point, one record per request arriving meanwhile, observation
+  after the broadcast has finished and the requests issued meanwhile went through -/
+  | park (p : Obs) (mids : List Rec) (u : Obs)
+  deriving DecidableEq, Repr
 
-def modelMachine : Machine State :=
-  { init := Pko.Model.ReqMgr.init, step := Pko.Model.ReqMgr.step, obs := Pko.Model.ReqMgr.obsStep,
-    view := Pko.Model.ReqMgrSpec.abs }
+/-- the printed records of a step -/
+def flat : Grp → List Rec
+  | .one r => [r]
+  | .park p mids u => .step "P" p :: mids ++ [.step "U" u]
 
-def specMachine : Machine Spec :=
-  { init := Pko.Model.ReqMgrSpec.init, step := Pko.Model.ReqMgrSpec.step,
-    obs := Pko.Model.ReqMgrSpec.obsStep, view := id }
+/-- What a parked broadcast amounts to once it is over - the only thing the property talks about:
+the pulls started / in flight afterwards, everybody answered by the broadcast (before or after
+the parking point), and how many of the packages handed out share memory. -/
+def collapse : Grp → Rec
+  | .one r => r
+  | .park p _ u =>
+    .step "U" { happened := true, started := u.started, inflight := u.inflight,
+                returned := p.returned ++ u.returned, aliased := p.aliased + u.aliased }
 
 /-- requests that have not been answered -/
 def waiting (v : Spec) : List Recv := (List.range v.next).filter fun r => (v.answers r).isEmpty
 
 /-- caller `c` is blocked in `Pull` -/
 def busy (v : Spec) (c : Caller) : Bool := (waiting v).any fun r => v.callerOf r == c
+
+/-- caller `c` is still blocked in `Pull` while the broadcast for image `i` is parked after its
+first `k` sends (`v` = the state before the broadcast) -/
+def busyParked (v : Spec) (i : Image) (k : Nat) (c : Caller) : Bool :=
+  (waiting v).any fun r => v.callerOf r == c && !(((v.pull i).getD []).take k).contains r
+
+/-- Which of the requests arriving during a parked broadcast are issued: not those of callers
+still blocked in `Pull` (or in an earlier request of this list), and at most one per image (the
+order in which several goroutines blocked on the mutex get it is not determined).
+`(issued, caller, image)` per request. -/
+def midPlan (v : Spec) (i : Image) (k : Nat) :
+    List (Caller × Image) → List Caller → List Image → List (Bool × Caller × Image)
+  | [], _, _ => []
+  | (c, j) :: rest, pc, pi =>
+    if busyParked v i k c || pc.contains c || pi.contains j then
+      (false, c, j) :: midPlan v i k rest pc pi
+    else (true, c, j) :: midPlan v i k rest (c :: pc) (j :: pi)
+
+/-- the requests of a plan that are issued, as operations -/
+def planOps (plan : List (Bool × Caller × Image)) : List Op :=
+  (plan.filter (·.1)).map fun p => Op.request p.2.1 p.2.2
+
+/-- A machine a scenario can be run on. -/
+structure Machine (σ : Type) where
+  init : σ
+  step : σ → Op → σ
+  obs : Nat → σ → Op → Obs
+  view : σ → Spec
+  /-- a parked completion (only called when a pull for the image is in flight) -/
+  park : σ → Image → Result → Nat → List (Caller × Image) → Grp × σ
+
+/-- observation of a fine-grained state in which nothing is being returned -/
+def fineIdleObs (f : FState) : Obs :=
+  { happened := false
+    started := (List.range nImg).map f.base.started
+    inflight := (List.range nImg).map (pulling f)
+    returned := [], aliased := 0 }
+
+/-- A parked completion on the model of the Go code, statement by statement (`ReqMgrFine`):
+`handleResponse` takes the lock, runs `k` loop iterations, is parked; the requests arriving now
+call `handleRequest`; the loop runs to its end, the entry is deleted, the lock released; the
+requests that were attempted meanwhile call `handleRequest` (again: they were blocked in
+`Lock()`).  Nothing here assumes that the attempts during the broadcast fail - that is what
+`fstep` says, because the lock is held. -/
+def parkModel (s : State) (i : Image) (res : Result) (k : Nat) (mid : List (Caller × Image)) :
+    Grp × State :=
+  let plan := midPlan (Pko.Model.ReqMgrSpec.abs s) i k mid [] []
+  let f1 := fstep { base := s, bc := none } (.lockResp i res)
+  let a := sendN k f1
+  let f2 := a.2
+  let pObs : Obs :=
+    { happened := true
+      started := (List.range nImg).map f2.base.started
+      inflight := (List.range nImg).map (pulling f2)
+      returned := a.1.map fun p => (s.callerOf p.1, p.2.res)
+      aliased := aliasCount (a.1.map (·.2)) }
+  let attempt := fun (f : FState) (p : Bool × Caller × Image) =>
+    if p.1 then fstep f (.request p.2.1 p.2.2) else f
+  let f3 := plan.foldl attempt f2
+  let mids := plan.map fun p => Rec.step (if p.1 then "w" else "b") (fineIdleObs f2)
+  let b := sendN (((s.inFlight i).getD []).length) f3
+  let f5 := fstep b.2 .unlockResp
+  let f6 := plan.foldl attempt f5
+  let uObs : Obs :=
+    { happened := true
+      started := (List.range nImg).map f6.base.started
+      inflight := (List.range nImg).map (pulling f6)
+      returned := b.1.map fun p => (s.callerOf p.1, p.2.res)
+      aliased := aliasCount ((a.1 ++ b.1).map (·.2)) }
+  (.park pObs mids uObs, f6.base)
+
+/-- A parked completion according to the specification: by the time it is over, the pull has
+completed - everybody who waited for it has its result, once - and every request that arrived
+meanwhile has been served *after* it (a fresh pull for the same image, the usual rules for
+another one); nothing handed out shares memory. -/
+def parkSpec (sp : Spec) (i : Image) (res : Result) (k : Nat) (mid : List (Caller × Image)) :
+    Grp × Spec :=
+  let plan := midPlan sp i k mid [] []
+  let sp2 := Pko.Model.ReqMgrSpec.run (Pko.Model.ReqMgrSpec.step sp (.complete i res)) (planOps plan)
+  (.one (.step "U"
+    { happened := true
+      started := (List.range nImg).map sp2.started
+      inflight := (List.range nImg).map fun j => if (sp2.pull j).isSome then 1 else 0
+      returned := ((sp.pull i).getD []).map fun r => (sp.callerOf r, res)
+      aliased := 0 }), sp2)
+
+def modelMachine : Machine State :=
+  { init := Pko.Model.ReqMgr.init, step := Pko.Model.ReqMgr.step, obs := Pko.Model.ReqMgr.obsStep,
+    view := Pko.Model.ReqMgrSpec.abs, park := parkModel }
+
+def specMachine : Machine Spec :=
+  { init := Pko.Model.ReqMgrSpec.init, step := Pko.Model.ReqMgrSpec.step,
+    obs := Pko.Model.ReqMgrSpec.obsStep, view := id, park := parkSpec }
 
 /-- payload identifying "result of pull number `gen` of image `i`" -/
 def payload (i gen : Nat) : Nat := i * 1000 + gen
@@ -65,37 +176,54 @@ def idleObs (v : Spec) : Obs :=
     inflight := (List.range nImg).map fun i => if (v.pull i).isSome then 1 else 0
     returned := [], aliased := 0 }
 
-def stepRec {σ : Type} (m : Machine σ) (s : σ) : SStep → Rec × σ
+def stepRec {σ : Type} (m : Machine σ) (s : σ) : SStep → Grp × σ
   | .req c i =>
-    if busy (m.view s) c then (.step "b" (idleObs (m.view s)), s)
-    else (.step "q" (m.obs nImg s (.request c i)), m.step s (.request c i))
+    if busy (m.view s) c then (.one (.step "b" (idleObs (m.view s))), s)
+    else (.one (.step "q" (m.obs nImg s (.request c i))), m.step s (.request c i))
   | .done i err =>
     let g := (m.view s).started i
     let res := if err then Result.err (payload i g) else Result.pkg (payload i g)
     let o := m.obs nImg s (.complete i res)
-    (.step (if o.happened then "d" else "n") o, m.step s (.complete i res))
-  | .bad => (.bad, s)
+    (.one (.step (if o.happened then "d" else "n") o), m.step s (.complete i res))
+  | .park i err k mid =>
+    let g := (m.view s).started i
+    let res := if err then Result.err (payload i g) else Result.pkg (payload i g)
+    if ((m.view s).pull i).isSome then m.park s i res k mid
+    else (.one (.step "n" (idleObs (m.view s))), s)
+  | .bad => (.one .bad, s)
 
-def runSteps {σ : Type} (m : Machine σ) (s : σ) : List SStep → List Rec × σ
+def runSteps {σ : Type} (m : Machine σ) (s : σ) : List SStep → List Grp × σ
   | [] => ([], s)
   | st :: sts =>
     let r := stepRec m s st
     let rest := runSteps m r.2 sts
     (r.1 :: rest.1, rest.2)
 
-def drain {σ : Type} (m : Machine σ) (s : σ) : List Image → List Rec × σ
+def drain {σ : Type} (m : Machine σ) (s : σ) : List Image → List Grp × σ
   | [] => ([], s)
   | i :: is =>
     if ((m.view s).pull i).isSome then
       let op := Op.complete i (.pkg (payload i ((m.view s).started i)))
       let rest := drain m (m.step s op) is
-      (.step "D" (m.obs nImg s op) :: rest.1, rest.2)
+      (.one (.step "D" (m.obs nImg s op)) :: rest.1, rest.2)
     else drain m s is
 
-/-- The whole trace of a scenario. -/
-def trace {σ : Type} (m : Machine σ) (steps : List SStep) : List Rec :=
+/-- The whole trace of a scenario, step by step. -/
+def traceG {σ : Type} (m : Machine σ) (steps : List SStep) : List Grp :=
   let a := runSteps m m.init steps
   let b := drain m a.2 (List.range nImg)
-  a.1 ++ b.1 ++ [.fin (waiting (m.view b.2)).length]
+  a.1 ++ b.1 ++ [.one (.fin (waiting (m.view b.2)).length)]
+
+/-- The records printed for a scenario. -/
+def trace {σ : Type} (m : Machine σ) (steps : List SStep) : List Rec :=
+  (traceG m steps).flatMap flat
+
+/-- What the property is judged on: parked broadcasts are looked at once they are over. -/
+def traceC {σ : Type} (m : Machine σ) (steps : List SStep) : List Rec :=
+  (traceG m steps).map collapse
+
+def SStep.isPark : SStep → Bool
+  | .park .. => true
+  | _ => false
 
 end Pko.Model.ReqMgrTrace
